@@ -79,21 +79,25 @@ CLAIMED.update({
  "C15": {"engine": "INV (effects)", "technique": "static analysis: transitive read/write effect sets over static-storage variables, reset-or-memo classification, bootstrap shape",
          "text": "Every static-storage variable the samplers read is reset unconditionally by the seeding function, a parameter memo, or never written; every one they write is thread-local; the seeding function seeds splitmix with the given seed, assigns the four state words from splitmix64() and discards exactly 20 outputs; the generator state has no other writers or direct readers. That the arithmetic IS sfc64/splitmix64 (constants) is not decided.",
          "note": "libm assumed pure; logging/assertion paths excluded from the effect sets"},
- "C16": {"engine": "INV", "technique": "static analysis: structural bounds on index-valued samplers and generated tables (narrow clauses only)",
-         "text": "NARROW: decides only that search-loop counters used as sampled indices cannot be one-past-the-end, that the unit-interval generator is strictly below 1 by construction, that byte-indexed tables have 256 entries, and that Bernoulli-based counts accumulate 0/1 trials over exactly n iterations. Distribution fit and value-level support of continuous samplers are not decidable statically and are not claimed.",
+ "C16": {"engine": "INV", "technique": "static analysis: structural bounds on index-valued samplers and generated tables, offset discipline of the ziggurat tail (narrow clauses only)",
+         "text": "NARROW: decides only that search-loop counters used as sampled indices cannot be one-past-the-end, that the unit-interval generator is strictly below 1 by construction, that byte-indexed tables have 256 entries, that Bernoulli-based counts accumulate 0/1 trials over exactly n iterations, and that an offset accumulated across retry rounds (exponential ziggurat tail) is added in every value returned from the retry loop. Distribution fit and value-level support of continuous samplers are not decidable statically and are not claimed.",
          "note": "the behavioural core of this property (distribution fit) is out of reach of static analysis"},
  "C17": {"engine": "DEG + INV", "technique": "static analysis: homogeneity-degree typing of the moment formulas in two scalings, guarded-division rule, aliasing rule",
          "text": "Decides necessary conditions of exactness: every sum in add/merge is homogeneous in the data (m_k degree k) and in the weights (m1 degree 0, m2..m4 and wsum degree 1); every weighted accessor has weight degree 0 (scale invariance for all inputs); divisions by count/weight-sum derived quantities are dominated by positivity facts (incl. empty merges); merge writes the target only by a final struct copy; min/max/count merged correctly; zero weights ignored. Numeric coefficients are not decided.",
          "note": "catches wrong powers and missing/extra factors, not wrong constants"},
- "C18": {"engine": "INV", "technique": "static analysis: exchange-only writes, grouped triple swaps, exhaustive bin assignment, copy/allocation agreement (narrow clauses only)",
-         "text": "NARROW: sorting writes array elements only through exchanges (same multiset for every input), time-series exchanges move all three parallel arrays with one index pair (samples stay whole), histogram filling adds exactly one contribution per sample on an exhaustive bin assignment over the right range, copies copy what they allocate. Ascending order, medians/quartiles and autocorrelation invariances are value-level and not claimed.",
-         "note": "most of this property is value-level and out of reach"},
+ "C18": {"engine": "INV + ORD-style + SHIFT + DEG", "technique": "static analysis: exchange-only writes, grouped triple swaps, exhaustive order abstraction of one sift round, heapsort skeleton, exhaustive bin assignment, copy/allocation agreement, translation and homogeneity typing of the autocorrelation",
+         "text": "Sorting writes array elements only through exchanges (same multiset for every input); time-series exchanges move all three parallel arrays with one index pair; one sift round moves the root to the largest of root and existing children for every ordering of the keys and every heap boundary, and the heapsort skeleton (build from n/2-1 down to 0, extract n-1 down to 1, no other way out than no data) is in place - the structural part of 'ascending order'; histogram filling adds exactly one contribution per sample on an exhaustive bin assignment over the right range; copies copy what they allocate; every autocorrelation coefficient is typed shift-invariant and of scale degree 0 with lag zero the literal one. Medians, quartiles and five-number summaries are value-level and not claimed.",
+         "note": "median / quartile clauses are out of reach; sift termination and the numerical value of coefficients are not decided"},
  "C19": {"engine": "INV (effects)", "technique": "static analysis: shared-state discipline over all static-storage variables, dispenser/join shape, thread-local reset classification",
          "text": "Every non-thread-local, non-const static variable is atomic-only, set up before the first pthread_create, a mutex or never written; the trial index comes from an atomic fetch-add of 1 with the bound test before use, trial pointer = base + index*size, trial function called once per index; create/join loops agree; every thread-local written at run time is reset by a per-trial initialiser, a parameter memo or reviewed result-neutral.",
          "note": "bit-identity with a sequential run as such is not decided; neutral table reviewed by reading"},
- "C20": {"engine": "INV", "technique": "static analysis: realloc discipline, free-list threading arithmetic, push/pop symmetry, dominance of the chunk-list store",
-         "text": "Chunk list grown with a stored-back byte-sized realloc; new chunks threaded with stride obj_sz over exactly incr_num-1 links ending in NULL with incr_num*obj_sz within the page-rounded chunk; object size release-asserted multiple of 8 on the one initialisation route, static pools initialised/registered on first use; alloc pops / free pushes symmetrically and nothing else writes the head; chunk-list slot dominated by the grow test; terminate frees all.",
+ "C20": {"engine": "IDX + INV", "technique": "static analysis: realloc discipline, object-index analysis of the free-list threading (induction variables, guard facts, Fourier-Motzkin), push/pop symmetry, dominance of the chunk-list store, static initialisers matched by field with a parsed macro witness",
+         "text": "Chunk list grown with a stored-back byte-sized realloc; in a new chunk every store hits an object number in [0, incr_num-1], every link is NULL or such an object strictly ahead, the walk follows its links and the last linked object gets NULL, with incr_num = incr_sz/obj_sz of the page-rounded chunk; static pools start as {THREAD_STATIC, sizeof(object type) or larger, positive count, empty lists} and the initialiser macro puts size and count into the right fields; each pool is used with one object type; object size release-asserted multiple of 8 on the one initialisation route, static pools initialised/registered on first use; alloc pops / free pushes symmetrically and nothing else writes the head; chunk-list slot dominated by the grow test; terminate frees all.",
          "note": "sizeof(void*) == 8 on the analysed port"},
 })
-ENGINES += [{"name": "DEG", "path": "sa/engines/deg.py", "serves_properties": ["C17"],
+ENGINES += [{"name": "IDX", "path": "sa/engines/induct.py", "serves_properties": ["C20"],
+  "kind_free_text": "polynomial offsets + induction variables + linear guard facts decided by Fourier-Motzkin elimination"},
+ {"name": "SHIFT", "path": "sa/engines/shift.py", "serves_properties": ["C18"],
+  "kind_free_text": "translation-class typing (invariant/equivariant/sum/other) with assumption-and-check for loop-carried accumulators"}]
+ENGINES += [{"name": "DEG", "path": "sa/engines/deg.py", "serves_properties": ["C17", "C18"],
   "kind_free_text": "degree typing of arithmetic expressions in a scaling variable (weights or data)"}]
